@@ -319,3 +319,38 @@ Fixpoint content_prefix (a c : list elem) : bool :=
   | x :: a', y :: c' => elem_eqb x y && content_prefix a' c'
   | _ :: _, [] => false
   end.
+
+(* ---- decidable equality of wire frames *)
+Definition pair_eqb {A B} (fa : A -> A -> bool) (fb : B -> B -> bool) (x y : A * B) : bool :=
+  fa (fst x) (fst y) && fb (snd x) (snd y).
+
+Definition wframe_eqb (x y : wframe) : bool :=
+  match x, y with
+  | WData i e d, WData i' e' d' => (i =? i') && Bool.eqb e e' && str_eqb d d'
+  | WHeaders i e h p f, WHeaders i' e' h' p' f' => (i =? i') && Bool.eqb e e' && Bool.eqb h h' && prio_eqb p p' && str_eqb f f'
+  | WCont i h f, WCont i' h' f' => (i =? i') && Bool.eqb h h' && str_eqb f f'
+  | WPush i q h f, WPush i' q' h' f' => (i =? i') && (q =? q') && Bool.eqb h h' && str_eqb f f'
+  | WPrio i p, WPrio i' p' => (i =? i') && prio_eqb p p'
+  | WRst i c, WRst i' c' => (i =? i') && (c =? c')
+  | WSettings l, WSettings l' => list_eqb (pair_eqb N.eqb N.eqb) l l'
+  | WSettingsAck, WSettingsAck => true
+  | WPing a d, WPing a' d' => Bool.eqb a a' && str_eqb d d'
+  | WGoAway a c d, WGoAway a' c' d' => (a =? a') && (c =? c') && str_eqb d d'
+  | WWinUpd i n, WWinUpd i' n' => (i =? i') && (n =? n')
+  | _, _ => false
+  end.
+
+
+(* ------------------------------------------------ connection-level frames (C10) *)
+Definition is_conn (f : wframe) : bool :=
+  match f with WSettings _ => true | WSettingsAck => true | WPing _ _ => true | WGoAway _ _ _ => true | _ => false end.
+
+(* SETTINGS, SETTINGS ACK, PING and GOAWAY are relayed one for one to the other endpoint in the same
+   step, and none is ever sent back to the endpoint the frame came from *)
+Definition conn_stepb (t : tstep) : bool :=
+  let from := e_from (t_ev t) in
+  match filter is_conn (frames_to from t) with [] => true | _ => false end &&
+  match t_status t with
+  | Ok => list_eqb wframe_eqb (filter is_conn (frames_to (other from) t)) (filter is_conn (r2w (e_frame (t_ev t))))
+  | _ => true
+  end.
